@@ -3,11 +3,16 @@ Model of the hooks of `bql/semantic/hooks.go` that build a SELECT statement: `wh
 `wherePredicateClause`, `whereObjectClause` (each a closure with its own `lastNopToken`, reset when the statement
 changes), `whereInitWorkingClause`, `whereNextWorkingClause`, `orderByBindings` + checker, `varAccumulator`
 (+ the flush of `bindingsGraphChecker`), `inputGraphAccumulator`, `groupByBindings`, `limitCollection`,
-`collectGlobalBounds`.  Tokens carry what Go's own parsers make of their text.
+`collectGlobalBounds`; and of those that build the statements changing a store: `dataAccumulator` (a closure
+holding the subject and predicate seen so far), `graphAccumulator`, `outputGraphAccumulator`,
+`TypeBindingClauseHook`, the CONSTRUCT / DECONSTRUCT template hooks (`constructSubject`, `constructPredicate`,
+`constructObject`, `InitWorkingConstructClause`, `NextWorkingConstructClause`,
+`NextWorkingConstructPredicateObjectPair`).  Tokens carry what Go's own parsers make of their text.
 Which grammar symbol feeds which hook is data (`BW.Generated.HookFacts`, found by probing the hooks of
 `grammar.SemanticBQL()` on every run).
 -/
 import BW.Model.Query
+import BW.Model.Statements
 open BW.Model
 
 namespace BW.Model.Hooks
@@ -15,7 +20,7 @@ namespace BW.Model.Hooks
 /-- Token kinds the WHERE-clause hooks distinguish. -/
 inductive HK
   | binding | node | predicate | predicateBound | literal | as_ | type_ | id_ | at_ | optional | lbracket | rbracket
-  | asc | desc | sum | count | distinct | comma | before | after | between | time | limit_ | other
+  | asc | desc | sum | count | distinct | comma | before | after | between | time | limit_ | blank | other
   deriving DecidableEq, Repr
 
 structure BoundP where
@@ -179,7 +184,11 @@ structure Head where
   limit : Option Int := none
   lower : Option Time := none
   upper : Option Time := none
-  deriving Repr
+  kind : Stm.Kind := .query               -- `BindType`
+  graphNames : List Bytes := []           -- CREATE / DROP
+  outputs : List Bytes := []              -- INTO / IN
+  data : List Triple := []                -- INSERT / DELETE
+  ccs : List Stm.CClause := []            -- CONSTRUCT / DECONSTRUCT template
 
 def projIsEmpty (p : Proj) : Bool := p.binding = [] && p.alias = [] && p.op == .none && !p.distinct
 
@@ -224,7 +233,11 @@ def limitStep (h : Head) (tk : HTk) : Option Head :=
   | .limit_ => some h
   | _ => none
 
-/-- Closure state of `collectGlobalBounds`. -/
+/-- Closure state of `collectGlobalBounds`; and of those that build the statements changing a store: `dataAccumulator` (a closure
+holding the subject and predicate seen so far), `graphAccumulator`, `outputGraphAccumulator`,
+`TypeBindingClauseHook`, the CONSTRUCT / DECONSTRUCT template hooks (`constructSubject`, `constructPredicate`,
+`constructObject`, `InitWorkingConstructClause`, `NextWorkingConstructClause`,
+`NextWorkingConstructPredicateObjectPair`). -/
 structure BState where
   cur : Nat := 0
   op : Option HK := none
@@ -233,7 +246,11 @@ structure BState where
 
 def BState.enter (b : BState) (stmt : Nat) : BState := if b.cur = stmt then b else { cur := stmt }
 
-/-- `collectGlobalBounds`. -/
+/-- `collectGlobalBounds`; and of those that build the statements changing a store: `dataAccumulator` (a closure
+holding the subject and predicate seen so far), `graphAccumulator`, `outputGraphAccumulator`,
+`TypeBindingClauseHook`, the CONSTRUCT / DECONSTRUCT template hooks (`constructSubject`, `constructPredicate`,
+`constructObject`, `InitWorkingConstructClause`, `NextWorkingConstructClause`,
+`NextWorkingConstructPredicateObjectPair`). -/
 def boundsStep (h : Head) (b : BState) (tk : HTk) : Option (Head × BState) :=
   match tk.k with
   | .before | .after | .between =>
@@ -255,12 +272,95 @@ def boundsStep (h : Head) (b : BState) (tk : HTk) : Option (Head × BState) :=
     | none => none
   | _ => none
 
+/-! ### Statements that change a store -/
+
+/-- `graphAccumulator` / `outputGraphAccumulator`: bindings separated by commas. -/
+def namesStep (l : List Bytes) (tk : HTk) : Option (List Bytes) :=
+  match tk.k with
+  | .comma => some l
+  | .binding => some (l ++ [tk.text])
+  | _ => none
+
+/-- Closure state of `dataAccumulator`: the subject and the predicate of the triple under construction. -/
+structure DAcc where
+  cur : Nat := 0
+  s : Option Node := none
+  p : Option Pred := none
+
+def DAcc.enter (a : DAcc) (stmt : Nat) : DAcc := if a.cur = stmt then a else { cur := stmt }
+
+/-- `dataAccumulator`: NODE, PREDICATE and LITERAL tokens fill subject, predicate, object in turn
+    (`node.Parse`, `predicate.Parse`, `triple.ParseObject`); a full triple is added to the data. -/
+def dataStep (data : List Triple) (a : DAcc) (tk : HTk) : Option (List Triple × DAcc) :=
+  if tk.k ≠ .node ∧ tk.k ≠ .predicate ∧ tk.k ≠ .literal then some (data, a) else
+  match a.s with
+  | none => if tk.k ≠ .node then none else tk.node.map fun n => (data, { a with s := some n })
+  | some s =>
+    match a.p with
+    | none => if tk.k ≠ .predicate then none else tk.pred.map fun p => (data, { a with p := some p })
+    | some p => tk.obj.map fun o => (data ++ [⟨s, p, o⟩], { a with s := none, p := none })
+
+/-- The working construct clause: its subject, the pairs closed so far, the working pair. -/
+structure WCC where
+  s : Option Node := none
+  sBinding : Bytes := []
+  pairs : List Stm.POPair := []
+  wpair : Option Stm.POPair := none
+
+/-- `ConstructPredicateObjectPair.IsEmpty` / `ConstructClause.IsEmpty` (`reflect.DeepEqual` with the zero value). -/
+def popIsEmpty (p : Stm.POPair) : Bool :=
+  p.p.isNone && p.pID = [] && p.pBinding = [] && p.pAnchorBinding = [] && !p.pTemporal &&
+  p.o.isNone && p.oID = [] && p.oBinding = [] && p.oAnchorBinding = [] && !p.oTemporal
+
+def wccIsEmpty (c : WCC) : Bool := c.s.isNone && c.sBinding = [] && c.pairs = [] && c.wpair.isNone
+
+def WCC.toClause (c : WCC) : Stm.CClause := { s := c.s, sBinding := c.sBinding, pairs := c.pairs }
+
+/-- `constructSubject`. -/
+def cSubjStep (c : WCC) (tk : HTk) : Option WCC :=
+  if c.s.isSome || c.sBinding ≠ [] then none else
+  match tk.k with
+  | .node | .blank => tk.node.map fun n => { c with s := some n }
+  | .binding => some { c with sBinding := tk.text }
+  | _ => some c
+
+/-- `constructPredicate`. -/
+def cPredStep (p : Stm.POPair) (tk : HTk) : Option Stm.POPair :=
+  if p.p.isSome || p.pID ≠ [] || p.pBinding ≠ [] then none else
+  match tk.k with
+  | .predicate => (processPredicate tk).map fun (pr, id, ab, tmp) => { p with p := pr, pID := id, pAnchorBinding := ab, pTemporal := tmp }
+  | .binding => some { p with pBinding := tk.text }
+  | _ => some p
+
+/-- `constructObject`. -/
+def cObjStep (p : Stm.POPair) (tk : HTk) : Option Stm.POPair :=
+  if p.o.isSome || p.oID ≠ [] || p.oBinding ≠ [] then none else
+  match tk.k with
+  | .node | .blank | .literal => tk.obj.map fun o => { p with o := some o }
+  | .predicate => (processPredicate tk).map fun (pr, id, ab, tmp) =>
+      { p with o := pr.map Obj.pred, oID := id, oAnchorBinding := ab, oTemporal := tmp }
+  | .binding => some { p with oBinding := tk.text }
+  | _ => some p
+
+/-- `AddWorkingPredicateObjectPair`. -/
+def WCC.closePair (c : WCC) : WCC :=
+  { c with pairs := (match c.wpair with
+                     | some p => if popIsEmpty p then c.pairs else c.pairs ++ [p]
+                     | none => c.pairs),
+           wpair := some {} }
+
+/-- `AddWorkingConstructClause`. -/
+def closeClause (ccs : List Stm.CClause) : Option WCC → List Stm.CClause
+  | some c => if wccIsEmpty c then ccs else ccs ++ [c.toClause]
+  | none => ccs
+
 /-- Which hook a grammar symbol's tokens go to. -/
-inductive Part | subj | pred | obj | order | vars | inGraphs | group | limit | bounds | none
+inductive Part | subj | pred | obj | order | vars | inGraphs | group | limit | bounds
+  | data | graphs | outGraphs | cSubj | cPred | cObj | none
   deriving DecidableEq, Repr
 
 /-- What a clause hook of the grammar does to the pattern under construction. -/
-inductive CHook | next | init | orderCheck | flushVars | none
+inductive CHook | next | init | orderCheck | flushVars | bindType (k : Stm.Kind) | cInit | cNext | cPair | none
   deriving DecidableEq, Repr
 
 /-- What the parser hands to the hooks, for the WHERE part of a statement. -/
@@ -270,6 +370,10 @@ inductive HEv where
   | init            -- `WhereInitWorkingClauseHook` (start of WHERE)
   | orderCheck      -- `OrderByBindingsChecker` (end of ORDER_BY)
   | flushVars       -- `VarBindingsGraphChecker` (end of WHERE): the working projection is flushed
+  | bindType (k : Stm.Kind)   -- `TypeBindingClauseHook`, `ShowClauseHook`
+  | cInit           -- `InitWorkingConstructClause` (start of CONSTRUCT_FACTS / DECONSTRUCT_FACTS)
+  | cNext           -- `NextWorkingConstructClause` (start and end of (MORE_)(DE)CONSTRUCT_TRIPLES)
+  | cPair           -- `NextWorkingConstructPredicateObjectPair` (start of CONSTRUCT_PREDICATE, end of CONSTRUCT_OBJECT)
 
 /-- The statement under construction, as far as the WHERE hooks see it, and the three closures. -/
 structure WState where
@@ -281,6 +385,8 @@ structure WState where
   ho : HState := {}
   hv : HState := {}
   hb : BState := {}
+  da : DAcc := {}
+  wcc : Option WCC := none
   head : Head := {}
 
 def emptyClause : Clause := {}
@@ -309,6 +415,18 @@ def wstep (w : WState) : HEv → Option WState
   | .tok .bounds tk =>
     let b := w.hb.enter w.stmt
     (boundsStep w.head b tk).map fun (hd, b') => { w with head := hd, hb := b' }
+  | .tok .data tk =>
+    let a := w.da.enter w.stmt
+    (dataStep w.head.data a tk).map fun (d, a') => { w with head := { w.head with data := d }, da := a' }
+  | .tok .graphs tk => (namesStep w.head.graphNames tk).map fun l => { w with head := { w.head with graphNames := l } }
+  | .tok .outGraphs tk => (namesStep w.head.outputs tk).map fun l => { w with head := { w.head with outputs := l } }
+  | .bindType k => some { w with head := { w.head with kind := k } }
+  | .cInit => some { w with wcc := some {} }
+  | .cNext => some { w with head := { w.head with ccs := closeClause w.head.ccs w.wcc }, wcc := some {} }
+  | .cPair => w.wcc.map fun c => { w with wcc := some c.closePair }
+  | .tok .cSubj tk => w.wcc.bind fun c => (cSubjStep c tk).map fun c' => { w with wcc := some c' }
+  | .tok .cPred tk => w.wcc.bind fun c => c.wpair.bind fun p => (cPredStep p tk).map fun p' => { w with wcc := some { c with wpair := some p' } }
+  | .tok .cObj tk => w.wcc.bind fun c => c.wpair.bind fun p => (cObjStep p tk).map fun p' => { w with wcc := some { c with wpair := some p' } }
   | .tok .subj tk =>
     let h := w.hs.enter w.stmt
     (subjStep w.working h.last tk).map fun (c, l) => { w with working := c, hs := { h with last := l } }
